@@ -1,4 +1,4 @@
-import Saito.Model.TxValidate
+import Saito.Lemmas.TxValidate
 /-!
 # C06 — a block's identity binds its content and its creator
 
@@ -11,6 +11,9 @@ which digest). The digest type is abstract; the theorems assume the combiners in
 * `C06_full` / `C06_full_strong` — two accepted blocks with the same hash have the same creator and the same ordered
   transaction hashes (repaired `merkleAlwaysCompared`); the same transactions *including which outputs they spend* when
   `inputLocationSigned` is repaired too.
+* `C06_repaired` / `C06_repaired_strong` / `C06_strong_of` — the same for every flag vector with the eight repairs
+  (`Repaired8`; only `merkleAlwaysCompared` is used), the strong form under `inputLocationSigned`;
+  `inputLocationSigned_witness_measured`, `strong_form_fails_measured`: on the measured vector the strong form fails.
 * `edit_*` — every change / addition / removal / reordering of the transaction list after signing, and every header
   change without the creator's signature, makes the block unacceptable.
 * `merkleAlwaysCompared_witness`, `inputLocationSigned_witness` — the pinned behaviour accepts both blocks.
@@ -88,13 +91,42 @@ theorem C06_full (hs : Hashes δ) (inj : InjHashes hs) (fl : Flags) (hf : fl.mer
   have hl := inj.m hroot
   refine ⟨hl, (map_leaf_inj hs inj fl _ _ hl).1, by rw [hhdr], by rw [s1, s2, hhdr], hhdr⟩
 
+/-- **C06 on every tree with the eight repairs** (`Repaired8`, in particular the measured vector): `C06_full` as it
+    stands — its proof uses `merkleAlwaysCompared` and no other flag (`txVerdictPropagated` plays no role here: block
+    identity does not look at transaction verdicts). The `edit_*` theorems below are stated for every `fl` with
+    `merkleAlwaysCompared = true` already, so they apply to every such tree as well. -/
+theorem C06_repaired (hs : Hashes δ) (inj : InjHashes hs) (fl : Flags) (hr : Repaired8 fl)
+    (b b' : IBlock δ) (ha : idAccepts hs fl b = true) (ha' : idAccepts hs fl b' = true)
+    (hh : blockHash hs b = blockHash hs b') :
+    b.txs.map (leafOf hs fl) = b'.txs.map (leafOf hs fl)
+      ∧ b.txs.map (·.content) = b'.txs.map (·.content)
+      ∧ b.hdr.creator = b'.hdr.creator ∧ b.sig.signer = b'.sig.signer ∧ b.hdr = b'.hdr :=
+  C06_full hs inj fl hr.merkleAlwaysCompared b b' ha ha' hh
+
+/-- the strong form for every flag vector with `merkleAlwaysCompared` and `inputLocationSigned` repaired: the two
+    blocks contain the same ordered transaction set outright — same signed content AND same outputs spent -/
+theorem C06_strong_of (hs : Hashes δ) (inj : InjHashes hs) (fl : Flags) (hm : fl.merkleAlwaysCompared = true)
+    (hl : fl.inputLocationSigned = true) (b b' : IBlock δ)
+    (ha : idAccepts hs fl b = true) (ha' : idAccepts hs fl b' = true)
+    (hh : blockHash hs b = blockHash hs b') : b.txs = b'.txs ∧ b.hdr = b'.hdr ∧ b.sig.signer = b'.sig.signer := by
+  obtain ⟨hleaf, _, _, hs', hhdr⟩ := C06_full hs inj fl hm b b' ha ha' hh
+  exact ⟨(map_leaf_inj hs inj fl _ _ hleaf).2 hl, hhdr, hs'⟩
+
+/-- … in particular for a tree with the eight repairs once `inputLocationSigned` is repaired too. On the measured
+    vector (`inputLocationSigned = false`) the strong form FAILS: `inputLocationSigned_witness_measured` — that
+    finding stays open. -/
+theorem C06_repaired_strong (hs : Hashes δ) (inj : InjHashes hs) (fl : Flags) (hr : Repaired8 fl)
+    (hl : fl.inputLocationSigned = true) (b b' : IBlock δ)
+    (ha : idAccepts hs fl b = true) (ha' : idAccepts hs fl b' = true)
+    (hh : blockHash hs b = blockHash hs b') : b.txs = b'.txs ∧ b.hdr = b'.hdr ∧ b.sig.signer = b'.sig.signer :=
+  C06_strong_of hs inj fl hr.merkleAlwaysCompared hl b b' ha ha' hh
+
 /-- with the input location signed as well, the two blocks contain the same ordered transaction set outright:
     same signed content AND same outputs spent -/
 theorem C06_full_strong (hs : Hashes δ) (inj : InjHashes hs) (b b' : IBlock δ)
     (ha : idAccepts hs Flags.fixed b = true) (ha' : idAccepts hs Flags.fixed b' = true)
-    (hh : blockHash hs b = blockHash hs b') : b.txs = b'.txs ∧ b.hdr = b'.hdr ∧ b.sig.signer = b'.sig.signer := by
-  obtain ⟨hl, _, _, hs', hhdr⟩ := C06_full hs inj Flags.fixed rfl b b' ha ha' hh
-  exact ⟨(map_leaf_inj hs inj Flags.fixed _ _ hl).2 rfl, hhdr, hs'⟩
+    (hh : blockHash hs b = blockHash hs b') : b.txs = b'.txs ∧ b.hdr = b'.hdr ∧ b.sig.signer = b'.sig.signer :=
+  C06_strong_of hs inj Flags.fixed rfl rfl b b' ha ha' hh
 
 /-! ## edits after signing -/
 
@@ -261,6 +293,26 @@ theorem inputLocationSigned_witness :
        let blkF : IBlock HT := { hdr := hdrF, sig := { signer := 6, msg := freeHashes.H1 hdrF }, txs := [tA, tB] }
        idAccepts freeHashes Flags.fixed blkF = true
        ∧ idAccepts freeHashes Flags.fixed { blkF with txs := [tA, tB'] } = false) := by decide
+
+/-- slip.rs:199 on the measured vector (eight repairs in place, `inputLocationSigned` still open): the honest block
+    and the block with one input re-pointed are both accepted under ONE hash although they spend different outputs.
+    So `C06_repaired` holds of the measured vector (non-vacuously), the conclusion `b.txs = b'.txs` of
+    `C06_full_strong` does not. -/
+theorem inputLocationSigned_witness_measured :
+    let repointed : IBlock HT := { blk0 with txs := [tA, tB'] }
+    rootOf freeHashes Flags.measured [tA, tB] = hdr0.root
+    ∧ idAccepts freeHashes Flags.measured blk0 = true ∧ idAccepts freeHashes Flags.measured repointed = true
+    ∧ blockHash freeHashes repointed = blockHash freeHashes blk0 ∧ repointed.txs ≠ blk0.txs
+    ∧ idAccepts freeHashes { Flags.measured with inputLocationSigned := true } repointed = false := by decide
+
+/-- … stated against the theorem: the strong form is false of the measured vector -/
+theorem strong_form_fails_measured :
+    ¬ (∀ (b b' : IBlock HT), idAccepts freeHashes Flags.measured b = true → idAccepts freeHashes Flags.measured b' = true →
+        blockHash freeHashes b = blockHash freeHashes b' → b.txs = b'.txs) := by
+  intro h
+  have := h blk0 { blk0 with txs := [tA, tB'] } (by decide) (by decide) (by decide)
+  revert this
+  decide
 
 /-- non-vacuity of `C06_full_strong`: an accepted block under the repaired flags -/
 example :
